@@ -121,7 +121,212 @@ pub open spec fn pv(p: Seq<R>) -> Seq<real> { Seq::new(p.len(), |i: int| p[i]@) 
         "params@ == old(params)@ && params@.len() == V", "mat.nrows == old(mat).nrows && mat.ncols == old(mat).ncols && mat.ncols <= V && mat.nrows <= xs@.len()", "jac == jac_0",
         "row < mat.nrows && deriv@.len() == V && pv(deriv@) == MJ(xs@[row as int]@, pv(old(params)@))",
         "forall|r: int, c: int| #![trigger mat.at(r, c)] ((0 <= r < row && 0 <= c < mat.ncols) || (r == row && 0 <= c < it2.index@)) ==> mat.at(r, c) == MJ(xs@[r]@, pv(old(params)@))[c]"])
-    return [u]
+    return [u, lm_unit(), lm_helpers_unit()]
+
+
+LM_SPEC = r'''
+pub uninterp spec fn MF(x: real, p: Seq<real>) -> real;
+pub uninterp spec fn MJ(x: real, p: Seq<real>) -> Seq<real>;
+pub open spec fn pv(p: Seq<R>) -> Seq<real> { Seq::new(p.len(), |i: int| p[i]@) }
+// the model and its gradient are pure functions of (x, parameters)
+pub open spec fn model_ok<F: FnMut(R, &Vec<R>) -> R>(f: F) -> bool {
+    (forall|x: R, p: &Vec<R>| #[trigger] f.requires((x, p))) && (forall|x: R, p: &Vec<R>, y: R| #[trigger] f.ensures((x, p), y) ==> y@ == MF(x@, pv(p@)))
+}
+pub open spec fn grad_ok<G: FnMut(R, &Vec<R>) -> Vec<R>>(g: G, v: nat) -> bool {
+    (forall|x: R, p: &Vec<R>| #[trigger] g.requires((x, p))) && (forall|x: R, p: &Vec<R>, y: Vec<R>| #[trigger] g.ensures((x, p), y) ==> y@.len() == v && pv(y@) == MJ(x@, pv(p@)))
+}
+// the model evaluated at every abscissa
+pub open spec fn fvals(xs: Seq<R>, p: Seq<real>) -> Seq<real> { Seq::new(xs.len(), |i: int| MF(xs[i]@, p)) }
+// `DVector::from_iterator(xs.len(), xs.iter().map(|&x| f(x, &p)))`: the model at every abscissa, in order
+#[verifier::external_body]
+pub fn vx_model_values<F: FnMut(R, &Vec<R>) -> R>(xs: &[R], f: &mut F, p: &Vec<R>) -> (r: DV)
+    requires model_ok(*old(f))
+    ensures *final(f) == *old(f), r@ == fvals(xs@, pv(p@))
+{ unimplemented!() }
+// SVector<N, V> is Copy: a by-value use of it is a copy
+#[verifier::external_body]
+pub fn vx_svec_copy(p: &Vec<R>) -> (r: Vec<R>) ensures r@.len() == p@.len(), pv(r@) == pv(p@) { unimplemented!() }
+// ---- one Levenberg-Marquardt iteration ----
+// residual sum of squares of the model with parameters p
+pub open spec fn ss(xs: Seq<R>, ys: Seq<real>, p: Seq<real>) -> real { ssq(wsub(ys, fvals(xs, p)), ys.len() as int) }
+// m is `base` with its diagonal multiplied by fac  (J^T J + lambda diag(J^T J), fac = 1 + lambda)
+pub open spec fn damped(m: DM, base: MF2, n: nat, fac: real) -> bool {
+    m.nrows == n && m.ncols == n && forall|r: int, c: int| #![trigger m.at(r, c)] 0 <= r < n && 0 <= c < n ==> m.at(r, c) == if r == c { base(r, c) * fac } else { base(r, c) }
+}
+// c = p + delta, where delta solves  damped(J^T J, fac) delta = J^T (y - ev)   (jt, j: the Jacobian's transpose and the Jacobian; ev: model values)
+pub open spec fn lm_cand(c: Seq<real>, p: Seq<real>, ev: Seq<real>, ys: Seq<real>, jt: MF2, j: MF2, n: nat, v: nat, fac: real) -> bool {
+    exists|m: DM| #![trigger m.e] damped(m, mm(jt, j, n), v, fac) && c == wadd(p, lsolve(m.e@, v, mvv(jt, v, n, wsub(ys, ev))))
+}
+// of two candidates the one with the smaller residual sum of squares is kept (the less damped one only if it is strictly better),
+// the damping follows the choice
+pub open spec fn lm_pick(xs: Seq<R>, ys: Seq<real>, c1: Seq<real>, c2: Seq<real>, lam: real, mu: real, p1: Seq<real>, lam1: real) -> bool {
+    if ss(xs, ys, c2) < ss(xs, ys, c1) { p1 == c2 && lam1 == lam / mu } else { p1 == c1 && lam1 == lam }
+}
+// one iteration from parameters p0 (with model values ev0 and Jacobian j / jt in hand) with damping lam: both candidates are LM steps
+// (as far as the first LU solve of each succeeded), the better one is kept
+pub open spec fn lm_step(xs: Seq<R>, ys: Seq<real>, v: nat, p0: Seq<real>, ev0: Seq<real>, jt: MF2, j: MF2, lam: real, mu: real, ok1: bool, ok2: bool, p1: Seq<real>, lam1: real) -> bool {
+    exists|c1: Seq<real>, c2: Seq<real>| #![trigger lm_pick(xs, ys, c1, c2, lam, mu, p1, lam1)]
+        (ok1 ==> lm_cand(c1, p0, ev0, ys, jt, j, xs.len(), v, 1real + lam)) && (ok2 ==> lm_cand(c2, p0, ev0, ys, jt, j, xs.len(), v, 1real + lam / mu))
+        && lm_pick(xs, ys, c1, c2, lam, mu, p1, lam1)
+}
+// what an Ok result of the curve fitting routines is: the starting parameters (no iteration was needed) or the outcome of an LM iteration
+pub open spec fn lm_result(xs: Seq<R>, ys: Seq<real>, v: nat, start: Seq<real>, mu: real, res: Seq<real>) -> bool {
+    res == start || exists|p0: Seq<real>, ev0: Seq<real>, jt: MF2, j: MF2, lam: real, ok1: bool, ok2: bool, lam1: real| #![trigger lm_step(xs, ys, v, p0, ev0, jt, j, lam, mu, ok1, ok2, res, lam1)]
+        lm_step(xs, ys, v, p0, ev0, jt, j, lam, mu, ok1, ok2, res, lam1)
+}
+// ---- callees, CONTRACTS ONLY (jac_analytic is proved in unit `optimize`; it is called with `&mut jacobian`) ----
+#[verifier::external_body]
+pub fn jac_analytic<G: FnMut(R, &Vec<R>) -> Vec<R>, const V: usize>(jac: &mut G, xs: &[R], params: &mut Vec<R>, mat: &mut DM)
+    requires old(params)@.len() == V, old(mat).ncols <= V, old(mat).nrows <= xs@.len(), grad_ok(*old(jac), V as nat)
+    ensures *final(jac) == *old(jac), final(params)@.len() == V, pv(final(params)@) == pv(old(params)@), final(mat).nrows == old(mat).nrows && final(mat).ncols == old(mat).ncols,
+        forall|r: int, c: int| #![trigger final(mat).at(r, c)] 0 <= r < old(mat).nrows && 0 <= c < old(mat).ncols ==> final(mat).at(r, c) == MJ(xs@[r]@, pv(old(params)@))[c]
+{ unimplemented!() }
+'''
+
+
+JFD_STUB = r'''
+// contracts only: jac_finite_differences is under contract in unit `optimize` (where its central-difference clause is the recorded finding);
+// here only what the iteration needs: shapes, parameters restored
+#[verifier::external_body]
+pub fn jac_finite_differences<F: FnMut(R, &Vec<R>) -> R, const V: usize>(f: &mut F, xs: &[R], params: &mut Vec<R>, mat: &mut DM, h: R)
+    requires old(params)@.len() == V, old(mat).ncols <= V, old(mat).nrows <= xs@.len(), model_ok(*old(f))
+    ensures *final(f) == *old(f), final(params)@.len() == V, pv(final(params)@) == pv(old(params)@), final(mat).nrows == old(mat).nrows && final(mat).ncols == old(mat).ncols
+{ unimplemented!() }
+'''
+
+
+def lm_fn(u, name, SUB, extra_sub, extra_req, extra_ens, extra_inv, end_anchor):
+    f = u.fn(OFILE, name)
+    f.attrs.append("#[verifier::exec_allows_no_decreases_clause]")
+    f.opt(subst=SUB + [("&mut jac_transpose, params, )?", "&mut jac_transpose, vx_svec_copy(&params), )?", "R35-svector-is-copy")] + extra_sub,
+          index_mul_assign=("multiplied", "multiplied_div"), ref_sub=("ys", "evaluation", "evaluation_div"))
+    # damping_mult is not validated by the routine: a zero factor (division by it) is outside the contract
+    f.req("model_ok(f_0)", "initial@.len() == V", "params.damping_mult@ != 0real", *extra_req)
+    f.ens("params.tolerance@ < 0real ==> res is Err", "params.damping@ < 0real ==> res is Err", "xs@.len() != ys@.len() ==> res is Err", *extra_ens,
+          "res is Ok ==> res->Ok_0@.len() == V",
+          # an Ok result is the start or the outcome of a Levenberg-Marquardt iteration
+          "res is Ok ==> lm_result(xs@, sl(ys), V as nat, sl(initial), params.damping_mult@, pv(res->Ok_0@))")
+    SHAPES = ["params@.len() == V", "ys@.len() == xs@.len()", "evaluation@.len() == xs@.len()", "jac.nrows == xs@.len() && jac.ncols == V",
+              "jac_transpose.nrows == V && jac_transpose.ncols == xs@.len()", "model_ok(f)"] + extra_inv
+    f.hint("before: let mut last_sum_sq", "let ghost g_it: nat = 0; let ghost g_p0: Seq<real> = Seq::empty(); let ghost g_ev0: Seq<real> = Seq::empty(); let ghost g_jt: MF2 = jac.e@; let ghost g_j: MF2 = jac.e@; "
+           "let ghost g_lam: real = 0real; let ghost g_ok1: bool = false; let ghost g_ok2: bool = false; let ghost vx_start = pv(params@); proof { assert(pv(params@) =~= sl(initial)); }")
+    f.loop(1, invariant=SHAPES + [
+        "damping_mult@ != 0real",
+        "g_it == 0 ==> pv(params@) == vx_start",
+        "g_it > 0 ==> lm_step(xs@, ys@, V as nat, g_p0, g_ev0, g_jt, g_j, g_lam, damping_mult@, g_ok1, g_ok2, pv(params@), damping@)",
+        # after an iteration the bookkeeping is consistent with the parameters kept
+        "g_it > 0 ==> evaluation@ == fvals(xs@, pv(params@)) && sum_sq@ == ss(xs@, ys@, pv(params@))"])
+    f.hint("loop 1 begin", "let ghost p0 = pv(params@); let ghost ev0 = evaluation@; let ghost jt0 = jac_transpose.e@; let ghost j0 = jac.e@; let ghost lam0 = damping@;")
+    f.hint("before: for i in 0..multiplied.row(0).len()", "let ghost base = multiplied.e@; let ghost rhs = b@; proof { assert(base == mm(jt0, j0, xs@.len() as nat)); assert(rhs == mvv(jt0, V as nat, xs@.len() as nat, wsub(ys@, ev0))); }")
+    f.loop(2, iter="it", invariant=["multiplied.nrows == V && multiplied.ncols == V", "it.iter.end == V",
+                                    "forall|r: int, c: int| #![trigger multiplied.at(r, c)] 0 <= r < V && 0 <= c < V ==> multiplied.at(r, c) == if r == c && r < it.index@ { base(r, c) * (1real + damping@) } else { base(r, c) }"])
+    f.hint("after: let lu_solved =", "let ghost m1 = multiplied; let ghost ok1 = lu_solved; proof { assert(damped(m1, base, V as nat, 1real + lam0)); }")
+    f.loop(3, iter="it3", invariant=["multiplied_div.nrows == V && multiplied_div.ncols == V", "it3.iter.end == V",
+                                     "forall|r: int, c: int| #![trigger multiplied_div.at(r, c)] 0 <= r < V && 0 <= c < V ==> multiplied_div.at(r, c) == if r == c && r < it3.index@ { base(r, c) * (1real + damping@ / damping_mult@) } else { base(r, c) }"])
+    f.hint("after: let solved =", "let ghost m2 = multiplied_div; let ghost ok2 = solved; proof { assert(damped(m2, base, V as nat, 1real + lam0 / damping_mult@)); }")
+    f.hint("before: if resid_div", """let ghost c1 = pv(new_params@); let ghost c2 = pv(new_params_div@);
+        proof {
+            if ok1 { assert(c1 =~= wadd(p0, lsolve(m1.e@, V as nat, rhs))); assert(lm_cand(c1, p0, ev0, ys@, jt0, j0, xs@.len() as nat, V as nat, 1real + lam0)); }
+            if ok2 { assert(c2 =~= wadd(p0, lsolve(m2.e@, V as nat, rhs))); assert(lm_cand(c2, p0, ev0, ys@, jt0, j0, xs@.len() as nat, V as nat, 1real + lam0 / damping_mult@)); }
+            assert(resid@ == ss(xs@, ys@, c1) && resid_div@ == ss(xs@, ys@, c2));
+        }""")
+    f.hint(end_anchor, """proof {
+            assert(lm_pick(xs@, ys@, c1, c2, lam0, damping_mult@, pv(params@), damping@));
+            g_it = g_it + 1; g_p0 = p0; g_ev0 = ev0; g_jt = jt0; g_j = j0; g_lam = lam0; g_ok1 = ok1; g_ok2 = ok2;
+        }""")
+    return f
+
+
+def lm_helpers_unit():
+    """the start-up helpers of the two curve fitting routines: bodies verified for memory safety and shapes"""
+    c = cfg()
+    c.type_subst = [(["SVector", "<", "N", ",", "V", ">"], "Vec<R>"), (["DMatrix", "<", "N", ">"], "DM"), (["DVector", "<", "N", ">"], "DV")] + c.type_subst
+    u = Unit("C17", "lm_helpers", preludes=("real", "stdx", "nalg", "lm"), cfg=c)
+    u.spec(LM_SPEC)
+    u.spec(JFD_STUB)
+    HSUB = [
+        ("ys[ind] - f(x, &params)", "ys.v[ind] - f(x, &params)", "R26-dvector-entry"),
+        ("resid .iter() .map(|&r| r.modulus_squared()) .fold(N::RealField::zero(), |acc, r| acc + r)", "vx_sum_sq_vec(&resid)", "R35-map-fold-as-helper"),
+        ("DVector::from_iterator(xs.len(), xs.iter().map(|&x| f(x, &params)))", "vx_model_values(xs, &mut f, &params)", "R35-map-collect-as-helper"),
+        ("ys - &evaluation", "ys.vx_sub_ref(&evaluation)", "R29-ref-operator-as-call"),
+        ("jac_transpose as &DMatrix<N> * &diff", "jac_transpose.vx_mul_vec(&diff)", "R29-ref-operator-as-call"),
+        ("jac_transpose as &DMatrix<N> * jac as &DMatrix<N>", "jac_transpose.vx_mul(jac)", "R29-ref-operator-as-call"),
+        ("params += &b;", "vx_svec_add_assign(&mut params, &b);", "R29-ref-operator-as-call"),
+        ("diff .iter() .map(|&r| r.modulus_squared()) .fold(N::RealField::zero(), |acc, r| acc + r)", "vx_sum_sq(&diff)", "R35-map-fold-as-helper"),
+    ]
+    for nm, extra, reqs, inv in (("initial_residuals_exact", [("jac_analytic(&mut jacobian", "jac_analytic::<G, V>(&mut jacobian", "R36-explicit-const-generic")],
+                                  ["grad_ok(jacobian_0, V as nat)"], ["grad_ok(jacobian, V as nat)"]),
+                                 ("initial_residuals", [("jac_finite_differences(&mut f", "jac_finite_differences::<F, V>(&mut f", "R36-explicit-const-generic")], [], [])):
+        g = u.fn(OFILE, nm)
+        g.attrs = []
+        g.opt(subst=HSUB + extra, index_mul_assign=("multiplied",))
+        g.req("model_ok(f_0)", "params_0@.len() == V", "old(jac).nrows == xs@.len()", "old(jac).ncols == V", "old(jac_transpose).nrows == V", "old(jac_transpose).ncols == xs@.len()", "ys@.len() == xs@.len()", "xs@.len() < usize::MAX", *reqs)
+        g.ens("final(jac).nrows == old(jac).nrows", "final(jac).ncols == old(jac).ncols", "final(jac_transpose).nrows == final(jac).ncols", "final(jac_transpose).ncols == final(jac).nrows",
+              "res is Ok ==> res->Ok_0.1@.len() == xs@.len()")
+        g.loop(1, iter="it", invariant=["resid@.len() == it.index@", "params@.len() == V", "ys@.len() == xs@.len()", "model_ok(f)", "ind == it.index@", "it.index@ <= xs@.len()", "xs@.len() < usize::MAX",
+                                        "forall|k: int| 0 <= k < it.history@.len() ==> *it.history@[k] == xs@[k]"])
+        g.loop(2, invariant=["params@.len() == V", "ys@.len() == xs@.len()", "evaluation@.len() == xs@.len()", "jac.nrows == xs@.len() && jac.ncols == V",
+                             "jac_transpose.nrows == V && jac_transpose.ncols == xs@.len()", "model_ok(f)", "j <= 1000",
+                             "old(jac).nrows == xs@.len() && old(jac).ncols == V"] + inv, decreases="1000 - j")
+        g.loop(3, iter="it3", invariant=["multiplied.nrows == V && multiplied.ncols == V", "it3.iter.end == V"])
+    return u
+
+
+def lm_unit():
+    """curve_fit_jac (Levenberg-Marquardt with the analytic Jacobian)"""
+    c = cfg()
+    c.type_subst = [(["SVector", "<", "N", ",", "V", ">"], "Vec<R>"), (["DMatrix", "<", "N", ">"], "DM"), (["DVector", "<", "N", ">"], "DV"),
+                    (["CurveFitParams", "<", "N", ">"], "CurveFitParams")] + c.type_subst
+    u = Unit("C17", "lm", preludes=("real", "stdx", "nalg", "lm"), cfg=c)
+    u.item(OFILE, "struct", "CurveFitParams")
+    u.spec(LM_SPEC)
+    SUB = [
+        ("SVector::<N, V>::from_column_slice(initial)", "vx_svec_from_slice(initial)", "R35-svector-from-slice"),
+        ("DVector::<N>::from_column_slice(ys)", "DV::vx_from_slice(ys)", "R35-dvector-from-slice"),
+        ("DMatrix::identity(", "DM::identity(", "R1-type-instantiation"),
+        # SVector<N, V> became Vec<R>: the const argument V can no longer be inferred from the argument types
+        ("jac_analytic(&mut jacobian", "jac_analytic::<G, V>(&mut jacobian", "R36-explicit-const-generic"),
+        ("initial_residuals_exact(", "initial_residuals_exact::<F, G, V>(", "R36-explicit-const-generic"),
+        ("&jac_transpose * &diff", "jac_transpose.vx_mul_vec(&diff)", "R29-ref-operator-as-call"),
+        ("&jac_transpose * &jac", "jac_transpose.vx_mul(&jac)", "R29-ref-operator-as-call"),
+        ("DVector::from_iterator(xs.len(), xs.iter().map(|&x| f(x, &new_params)))", "vx_model_values(xs, &mut f, &new_params)", "R35-map-collect-as-helper"),
+        ("DVector::from_iterator(xs.len(), xs.iter().map(|&x| f(x, &new_params_div)))", "vx_model_values(xs, &mut f, &new_params_div)", "R35-map-collect-as-helper"),
+        ("diff .iter() .map(|&r| r.modulus_squared()) .fold(N::RealField::zero(), |acc, r| acc + r)", "vx_sum_sq(&diff)", "R35-map-fold-as-helper"),
+        ("diff_div .iter() .map(|&r| r.modulus_squared()) .fold(N::RealField::zero(), |acc, r| acc + r)", "vx_sum_sq(&diff_div)", "R35-map-fold-as-helper"),
+        ("params + &b_div", "vx_svec_add(&params, &b_div)", "R29-ref-operator-as-call"),
+        ("params + &b;", "vx_svec_add(&params, &b);", "R29-ref-operator-as-call"),
+    ]
+    u.spec(JFD_STUB)
+    u.spec(r'''
+// the two start-up helpers as their callers see them: CONTRACTS ONLY here, restated with `&mut F` parameters (they are called with `&mut f`,
+// `&mut jacobian`) and the pure-callback assumption `*final(f) == *old(f)`; their bodies are verified in unit lm_helpers
+#[verifier::external_body]
+pub fn initial_residuals_exact<F: FnMut(R, &Vec<R>) -> R, G: FnMut(R, &Vec<R>) -> Vec<R>, const V: usize>(xs: &[R], ys: &DV, damping: &mut R, damping_mult: R, f: &mut F, jacobian: &mut G,
+        jac: &mut DM, jac_transpose: &mut DM, params: Vec<R>) -> (res: Result<(R, DV), String>)
+    requires model_ok(*old(f)), grad_ok(*old(jacobian), V as nat), params@.len() == V, old(jac).nrows == xs@.len(), old(jac).ncols == V,
+        old(jac_transpose).nrows == V, old(jac_transpose).ncols == xs@.len(), ys@.len() == xs@.len()
+    ensures *final(f) == *old(f), *final(jacobian) == *old(jacobian), final(jac).nrows == old(jac).nrows, final(jac).ncols == old(jac).ncols,
+        final(jac_transpose).nrows == final(jac).ncols, final(jac_transpose).ncols == final(jac).nrows,
+        res is Ok ==> res->Ok_0.1@.len() == xs@.len()
+{ unimplemented!() }
+#[verifier::external_body]
+pub fn initial_residuals<F: FnMut(R, &Vec<R>) -> R, const V: usize>(xs: &[R], ys: &DV, damping: &mut R, damping_mult: R, h: R, f: &mut F,
+        jac: &mut DM, jac_transpose: &mut DM, params: Vec<R>) -> (res: Result<(R, DV), String>)
+    requires model_ok(*old(f)), params@.len() == V, old(jac).nrows == xs@.len(), old(jac).ncols == V,
+        old(jac_transpose).nrows == V, old(jac_transpose).ncols == xs@.len(), ys@.len() == xs@.len()
+    ensures *final(f) == *old(f), final(jac).nrows == old(jac).nrows, final(jac).ncols == old(jac).ncols,
+        final(jac_transpose).nrows == final(jac).ncols, final(jac_transpose).ncols == final(jac).nrows,
+        res is Ok ==> res->Ok_0.1@.len() == xs@.len()
+{ unimplemented!() }
+''')
+    lm_fn(u, "curve_fit", [x for x in SUB if not x[0].startswith(("jac_analytic", "initial_residuals_exact"))],
+          extra_sub=[("jac_finite_differences(&mut f", "jac_finite_differences::<F, V>(&mut f", "R36-explicit-const-generic"),
+                     ("initial_residuals(", "initial_residuals::<F, V>(", "R36-explicit-const-generic")],
+          extra_req=[], extra_ens=["params.h@ < 0real ==> res is Err"], extra_inv=[],
+          end_anchor="before: #2 jac_finite_differences(&mut f, xs, &mut params, &mut jac, h);")
+    lm_fn(u, "curve_fit_jac", SUB, extra_sub=[], extra_req=["grad_ok(jacobian_0, V as nat)"], extra_ens=[], extra_inv=["grad_ok(jacobian, V as nat)"],
+          end_anchor="before: jac_analytic(&mut jacobian, xs, &mut params, &mut jac);\n        jac_transpose = jac.transpose();\n    }")
+    return u
 
 
 DECIDED = [
@@ -130,9 +335,22 @@ DECIDED = [
     "NRA lemmas: those values satisfy both normal equations whenever m Sxx - Sx^2 != 0, and reproduce exactly-linear data (with the Verus lemma lemma_sums_of_linear_data); the sums, hence the fit, do not depend on the order of the points",
     "jac_finite_differences: parameters restored exactly, matrix shape kept, every entry equals the central difference (f(x_r, p + h e_c) - f(x_r, p - h e_c))/2h -- this obligation FAILS on the pinned tree and is the recorded finding (the code adds the samples)",
     "lemma_fd_affine: a central difference is exact for models affine in the parameter",
+    "curve_fit and curve_fit_jac (unit lm; nalgebra's DVector / DMatrix / LU / QR as uninterpreted shims): a negative tolerance, a negative damping, a negative step width (curve_fit) and xs / ys of different "
+    "lengths give Err (partial correctness); an Ok result has V entries and is either the starting vector or the outcome of a Levenberg-Marquardt iteration: both candidates are p + delta with "
+    "(J^T J with its diagonal multiplied by 1 + lambda, resp. 1 + lambda / damping_mult) delta = J^T (y - model values), the candidate with the smaller residual sum of squares is kept "
+    "(the less damped one only if strictly better) and the damping is divided by damping_mult exactly when the less damped candidate is kept; after every iteration evaluation and sum_sq are those of the kept parameters",
 ]
 NOT_DECIDED = [
-    "curve_fit / curve_fit_jac themselves: termination (no iteration cap; the property text reports a non-terminating case), convergence, agreement of both variants, and their four Err clauses (the functions are nalgebra-heavy: DMatrix products, LU/QR solves, closures capturing &mut closures) -- not brought under contract; the Err clauses are exercised only by the witness probe",
+    "curve_fit / curve_fit_jac: termination (no iteration cap; with a negative tolerance the loop condition can never become false -- the Err clauses are decided under partial correctness, "
+    "the bounded probe watches the model-call budget), convergence, 'returns the least-squares parameters to an accuracy governed by the tolerance', agreement of the two variants (analytic; bounded probe only)",
+    "what the fallback solvers compute when the first LU solve fails (they are handed whatever the failed attempt left in b): the step relation is claimed only for candidates whose first LU solve succeeded",
+    "the start-up helpers initial_residuals / initial_residuals_exact: verified for memory safety and shapes only (they work on a COPY of the parameters -- SVector is Copy -- so the values they leave in "
+    "evaluation / jac / sum_sq belong to a point the caller never adopts; the first main iteration therefore combines the caller's parameters with model values and a Jacobian taken elsewhere. "
+    "This does not contradict a clause of C17 and is not reported as a finding; the step relation names the point of evaluation separately for that reason)",
+    "a zero damping_mult (not validated by the routines; division by it) is outside the contract",
 ]
-ASSUMPTIONS = ["SVector<N,V> is verified as Vec<R> of length V (only indexing is used); DMatrix is the shim DM with assumed column/row/IndexMut behaviour (rule R22)",
+ASSUMPTIONS = ["unit lm / lm_helpers: prelude/lm.rs (DVector, DMatrix products, the solvers' solve_mut, SVector + &DVector, map/collect and map/fold expressions of the routines spelled as helper calls: rules R29, R35, R36); "
+               "matrix product, matrix-vector product and the solution of a linear system are uninterpreted; the callees jac_analytic / jac_finite_differences / initial_residuals* appear to their callers as contracts restated "
+               "with `&mut F` parameters and the pure-callback assumption *final(f) == *old(f)",
+               "SVector<N,V> is verified as Vec<R> of length V (only indexing is used); DMatrix is the shim DM with assumed column/row/IndexMut behaviour (rule R22)",
                "the model callback is a pure function MF(x, p)"]
